@@ -407,15 +407,18 @@ Proof.
   destruct (tl_remove o pl t) as [[b invs] pl'] eqn:R. destruct b; auto.
   pose proof (tl_remove_ok _ _ _ _ _ _ R) as Hsp.
   match goal with |- unique_nonce (if _ then pn_set ?X _ _ else _) => assert (H2 : unique_nonce X) end.
-  { destruct (tl_empty pl').
-    - eapply un_pdel with (p := p1); eauto; reflexivity.
-    - set (pb := set_pending p1 (assoc_set (tfrom t) pl' (pending p1))).
-      assert (Hb : unique_nonce pb) by (eapply un_pshrink with (p := p1); eauto; reflexivity).
-      apply enqueue_fold_un; auto.
-      intros x Hx u Hu. destruct Hun1 as (HP & _ & _). destruct (HP _ _ P) as [Hs Hf].
-      destruct (Hsp Hs) as (_ & _ & I2 & D). rewrite Forall_forall in Hf. rewrite (Hf x (I2 x Hx)) in Hu.
-      destruct Hu as (lp & Hlp & Hu). unfold pb in Hlp. cbn [pending set_pending] in Hlp. rewrite assoc_set_same in Hlp.
-      inversion Hlp; subst. intros E. apply (D x u); auto. }
+  { destruct Hun1 as (HP & HQ1 & HD1). destruct (HP _ _ P) as [Hs Hf]. destruct (Hsp Hs) as (_ & _ & I2 & D).
+    assert (Hun1 : unique_nonce p1) by (split; [|split]; auto).
+    rewrite Forall_forall in Hf.
+    destruct (tl_empty pl').
+    - apply enqueue_fold_un.
+      + eapply un_pdel with (p := p1); eauto; reflexivity.
+      + intros x Hx u (lp & Hlp & Hu). rewrite (Hf x (I2 x Hx)) in Hlp. cbn [pending set_pending set_beats] in Hlp.
+        rewrite assoc_del_same in Hlp. discriminate.
+    - apply enqueue_fold_un.
+      + eapply un_pshrink with (p := p1); eauto; reflexivity.
+      + intros x Hx u (lp & Hlp & Hu). rewrite (Hf x (I2 x Hx)) in Hlp. cbn [pending set_pending] in Hlp. rewrite assoc_set_same in Hlp.
+        inversion Hlp; subst. intros E. apply (D x u); auto. }
   match goal with |- unique_nonce (if ?c then _ else _) => destruct c end; exact H2.
 Qed.
 Lemma remove_fold_un : forall o (l : list tx) p, unique_nonce p -> unique_nonce (fold_left (fun q t => remove_tx o q (thash t)) l p).
@@ -690,14 +693,15 @@ Definition o0 : oracle := mkOracle [] [] [] [].
 Definition cfg_tiny : cfg := mkCfg 2 4 2 4 10 false.
 Definition mk (h from nonce price : Z) : tx := mkTx h from nonce price 21000 100 21000 110 true.
 
-(* removeTx: price threshold raised above the first pending transaction of an account; its successor
-   is neither pending nor queued afterwards but stays in pool.all, and cannot be submitted again *)
+(* removeTx (directed history of the former finding removetx-leaks-all-index, fixed in /repo by
+   "txpool removeTx re-queues invalidated successors also when the pending list becomes empty"):
+   the price threshold is raised above the first pending transaction of an account; its successor is re-queued *)
 Definition leak_history : list (oracle * op) :=
   [(o0, OpAddRemote (mk 1 0 0 5)); (o0, OpAddRemote (mk 2 0 1 100)); (o0, OpSetGasPrice 50)].
-Lemma all_is_union_refuted :
+Lemma leak_history_requeues :
   exists p, run (new_pool cfg_tiny 1 [(0, (0, 100000000))] 1000000) leak_history = Ok p /\
-            all_is_unionb p = false /\ pending p = [] /\ queue p = [] /\
-            exists p', add_remote o0 p (mk 2 0 1 100) = Ok (Some EKnown, p').
+            all_is_unionb p = true /\ pending p = [] /\
+            map (fun kv => (fst kv, map thash (items (snd kv)))) (queue p) = [(0, [2])].
 Proof. eexists. split; [vm_compute; reflexivity|]. vm_compute. repeat split; eauto. Qed.
 
 (* reset: the account nonce goes back from 2 to 0 in a reorganisation; only the nonce-0 transaction is
